@@ -202,7 +202,11 @@ def export_to_csv(
 
     if export_seg:
         # Determine maximum value in the column to assign bit depth
-        max_val = int(df[column_map["track_id"]].max())
+        seg_track_id_key = (
+            tracks.features.tracklet_key if use_display_names else "track_id"
+        )
+        seg_track_id_column = column_map[cast(str, seg_track_id_key)]
+        max_val = int(df[seg_track_id_column].max())
 
         # Pick dtype based on max_val
         if max_val <= np.iinfo(np.uint8).max:
@@ -215,7 +219,7 @@ def export_to_csv(
             dtype = np.uint64  # large values
 
         input_vals = np.array(df[column_map["id"]])
-        output_vals = np.array(df[column_map["track_id"]], dtype=dtype)
+        output_vals = np.array(df[seg_track_id_column], dtype=dtype)
         segmentation = np.asarray(tracks.segmentation)
         if not segmentation.dtype.isnative:
             # map_array only accepts native byte order (label images read from some
